@@ -544,4 +544,281 @@ theorem fromOutgoing_history (ops : List OutOp)
 
 
 
+
+
+/-! ### the reference machine: aliasing -/
+
+/-- object ids a context refers to -/
+def refs (x : Ctx) : List Nat := x.inc.toList ++ (x.out.bind (·.1)).toList
+
+/-- every context refers to existing objects only -/
+def RefsOK (st : St) : Prop := ∀ c x, (c, x) ∈ st.ctxs → ∀ i ∈ refs x, (getObj st i).isSome = true
+
+def creates : Op → Option Nat
+  | .lit d _ | .new d _ | .pairs d _ | .copy d _ | .join d _ | .fromin d _ | .fromout d _ => some d
+  | _ => none
+
+def mutates : Op → Option Nat
+  | .set m _ _ | .append m _ _ | .delete m _ | .scribble m => some m
+  | _ => none
+
+theorem lookup_putObjs (l : List (Nat × MD)) (i j : Nat) (md : MD) :
+    (putObjs l i md).lookup j = if i = j then some md else l.lookup j := by
+  induction l with
+  | nil =>
+    by_cases h : i = j
+    · subst h; simp [putObjs, List.lookup]
+    · have : (j == i) = false := by simp; exact fun hh => h hh.symm
+      simp [putObjs, List.lookup, h, this]
+  | cons e t ih =>
+    obtain ⟨a, b⟩ := e
+    by_cases ha : a = i
+    · subst ha
+      by_cases h : a = j
+      · subst h; simp [putObjs, List.lookup]
+      · have : (j == a) = false := by simp; exact fun hh => h hh.symm
+        simp [putObjs, List.lookup, h, this]
+    · simp only [putObjs, ha, if_false, List.lookup]
+      cases hja : (j == a)
+      · simp only [ih]
+      · have : j = a := by simpa using hja
+        subst this
+        simp [Ne.symm ha]
+
+theorem getObj_putObj (st : St) (i j : Nat) (md : MD) :
+    getObj (putObj st i md) j = if i = j then some md else getObj st j := by
+  unfold getObj putObj; exact lookup_putObjs _ _ _ _
+
+theorem ctxs_putObj (st : St) (i : Nat) (md : MD) : (putObj st i md).ctxs = st.ctxs := rfl
+
+theorem rawOf_putObj {st : St} {x : Ctx} {i : Nat} (md : MD) (h : i ∉ refs x) :
+    rawOf (putObj st i md) x = rawOf st x := by
+  unfold rawOf
+  cases ho : x.out with
+  | none => rfl
+  | some o =>
+    obtain ⟨mid, added⟩ := o
+    cases mid with
+    | none => rfl
+    | some j =>
+      have : i ≠ j := by
+        intro hij; apply h; subst hij; simp [refs, ho]
+      simp [getObj_putObj, this]
+
+theorem incOf_putObj {st : St} {x : Ctx} {i : Nat} (md : MD) (h : i ∉ refs x) :
+    incOf (putObj st i md) x = incOf st x := by
+  unfold incOf
+  cases hi : x.inc with
+  | none => rfl
+  | some j =>
+    have : i ≠ j := by
+      intro hij; apply h; subst hij; simp [refs, hi]
+    simp [getObj_putObj, this]
+
+theorem create_spec {st st1 : St} {d : Nat} {md m : MD} (h : create st d md = (st1, .md m)) :
+    getObj st d = none ∧ st1 = putObj st d md ∧ m = md := by
+  unfold create at h
+  cases hg : getObj st d with
+  | some x => simp [hg] at h
+  | none =>
+    simp [hg] at h
+    exact ⟨rfl, h.1.symm, h.2.symm⟩
+
+theorem mutate_fst (st : St) (m : Nat) (f : MD → MD) :
+    (mutate st m f).1 = st ∨ ∃ md', (mutate st m f).1 = putObj st m md' := by
+  unfold mutate
+  cases getObj st m with
+  | none => exact Or.inl rfl
+  | some md => exact Or.inr ⟨f md, rfl⟩
+
+theorem step_creates {st st1 : St} {op : Op} {d : Nat} {m : MD} (hc : creates op = some d)
+    (h : step st op = (st1, .md m)) : getObj st d = none ∧ st1 = putObj st d m := by
+  cases op <;> simp only [creates, Option.some.injEq, reduceCtorEq] at hc <;> subst hc <;> simp only [step] at h
+  case lit md => obtain ⟨a, b, c⟩ := create_spec h; exact ⟨a, c ▸ b⟩
+  case new mm => obtain ⟨a, b, c⟩ := create_spec h; exact ⟨a, c ▸ b⟩
+  case pairs kv => obtain ⟨a, b, c⟩ := create_spec h; exact ⟨a, c ▸ b⟩
+  case copy s =>
+    cases hs : getObj st s with
+    | none => simp [hs] at h
+    | some md => rw [hs] at h; obtain ⟨a, b, c⟩ := create_spec h; exact ⟨a, c ▸ b⟩
+  case join srcs =>
+    cases hs : srcs.mapM (getObj st) with
+    | none => simp [hs] at h
+    | some mds => rw [hs] at h; obtain ⟨a, b, c⟩ := create_spec h; exact ⟨a, c ▸ b⟩
+  case fromin c =>
+    cases hx : getCtx st c with
+    | none => simp [hx] at h
+    | some x =>
+      rw [hx] at h
+      cases hi : incOf st x with
+      | none => simp [hi] at h
+      | some md => simp only [hi] at h; obtain ⟨a, b, c⟩ := create_spec h; exact ⟨a, c ▸ b⟩
+  case fromout c =>
+    cases hx : getCtx st c with
+    | none => simp [hx] at h
+    | some x =>
+      rw [hx] at h
+      cases hi : rawOf st x with
+      | none => simp [hi] at h
+      | some md => simp only [hi] at h; obtain ⟨a, b, c⟩ := create_spec h; exact ⟨a, c ▸ b⟩
+
+theorem step_mutates (st : St) {op : Op} {d : Nat} (hm : mutates op = some d) :
+    (step st op).1 = st ∨ ∃ md', (step st op).1 = putObj st d md' := by
+  cases op <;> simp only [mutates, Option.some.injEq, reduceCtorEq] at hm <;> subst hm <;> simp only [step] <;>
+    exact mutate_fst _ _ _
+
+/-- An object just returned by Copy / FromXContext / Join / New / Pairs is referenced by no context,
+    so whatever the caller then does to it (Set/Append/Delete/scribbling) changes no context read and
+    no other object. -/
+theorem copies_are_fresh (st : St) (hR : RefsOK st) (op mu : Op) (d : Nat) (st1 : St) (m : MD)
+    (hc : creates op = some d) (h1 : step st op = (st1, .md m)) (hm : mutates mu = some d) :
+    (step st1 mu).1.ctxs = st.ctxs ∧
+    (∀ c x, (c, x) ∈ st.ctxs →
+      rawOf (step st1 mu).1 x = rawOf st x ∧ incOf (step st1 mu).1 x = incOf st x) ∧
+    (∀ j, j ≠ d → getObj (step st1 mu).1 j = getObj st j) := by
+  obtain ⟨hnone, rfl⟩ := step_creates hc h1
+  have hunref : ∀ c x, (c, x) ∈ st.ctxs → d ∉ refs x := by
+    intro c x hx hin
+    have := hR c x hx d hin
+    rw [hnone] at this; cases this
+  rcases step_mutates (putObj st d m) hm with h2 | ⟨md', h2⟩ <;> rw [h2]
+  · refine ⟨rfl, fun c x hx => ⟨rawOf_putObj _ (hunref c x hx), incOf_putObj _ (hunref c x hx)⟩, fun j hj => ?_⟩
+    simp [getObj_putObj, Ne.symm hj]
+  · refine ⟨rfl, fun c x hx => ?_, fun j hj => ?_⟩
+    · rw [rawOf_putObj _ (hunref c x hx), rawOf_putObj _ (hunref c x hx),
+        incOf_putObj _ (hunref c x hx), incOf_putObj _ (hunref c x hx)]
+      exact ⟨rfl, rfl⟩
+    · simp [getObj_putObj, Ne.symm hj]
+
+
+
+theorem refsOK_putObj {st : St} (h : RefsOK st) (i : Nat) (md : MD) : RefsOK (putObj st i md) := by
+  intro c x hx j hj
+  rw [getObj_putObj]
+  by_cases hij : i = j
+  · simp [hij]
+  · simp only [hij, if_false]; exact h c x hx j hj
+
+theorem refsOK_create {st : St} (h : RefsOK st) (d : Nat) (md : MD) : RefsOK (create st d md).1 := by
+  unfold create
+  cases getObj st d with
+  | some _ => exact h
+  | none => exact refsOK_putObj h d md
+
+theorem refsOK_mutate {st : St} (h : RefsOK st) (m : Nat) (f : MD → MD) : RefsOK (mutate st m f).1 := by
+  rcases mutate_fst st m f with h2 | ⟨md', h2⟩ <;> rw [h2]
+  · exact h
+  · exact refsOK_putObj h m md'
+
+theorem refsOK_addCtx {st : St} (h : RefsOK st) (c : Nat) (x : Ctx)
+    (hx : ∀ i ∈ refs x, (getObj st i).isSome = true) : RefsOK (addCtx st c x).1 := by
+  unfold addCtx
+  cases getCtx st c with
+  | some _ => exact h
+  | none =>
+    intro c' x' hm j hj
+    simp only [List.mem_append, List.mem_singleton, Prod.mk.injEq] at hm
+    rcases hm with hm | ⟨_, rfl⟩
+    · exact h c' x' hm j hj
+    · exact hx j hj
+
+theorem refs_of_getCtx {st : St} (h : RefsOK st) {p : Nat} {pc : Ctx} (hp : getCtx st p = some pc) :
+    ∀ i ∈ refs pc, (getObj st i).isSome = true := by
+  have : (p, pc) ∈ st.ctxs := by
+    unfold getCtx at hp
+    generalize st.ctxs = l at hp
+    induction l with
+    | nil => simp [List.lookup] at hp
+    | cons e t ih =>
+      obtain ⟨a, b⟩ := e
+      simp only [List.lookup] at hp
+      cases hpa : (p == a)
+      · rw [hpa] at hp; exact List.mem_cons_of_mem _ (ih hp)
+      · rw [hpa] at hp
+        have : p = a := by simpa using hpa
+        subst this; simp at hp; subst hp; simp
+  exact h p pc this
+
+theorem refsOK_step {st : St} (h : RefsOK st) (op : Op) : RefsOK (step st op).1 := by
+  cases op <;> simp only [step]
+  case lit d md => exact refsOK_create h _ _
+  case new d m => exact refsOK_create h _ _
+  case pairs d kv => exact refsOK_create h _ _
+  case copy d s => cases getObj st s <;> first | exact h | exact refsOK_create h _ _
+  case join d srcs => cases srcs.mapM (getObj st) <;> first | exact h | exact refsOK_create h _ _
+  case get m k => cases getObj st m <;> exact h
+  case set m k vs => exact refsOK_mutate h _ _
+  case append m k vs => exact refsOK_mutate h _ _
+  case delete m k => exact refsOK_mutate h _ _
+  case len m => cases getObj st m <;> exact h
+  case dump m => cases getObj st m <;> exact h
+  case scribble m => exact refsOK_mutate h _ _
+  case bg c => exact refsOK_addCtx h _ _ (by simp [refs])
+  case newin c p m =>
+    cases hp : getCtx st p with
+    | none => exact h
+    | some pc =>
+      cases hm : getObj st m with
+      | none => exact h
+      | some md =>
+        apply refsOK_addCtx h
+        intro i hi
+        have hpc := refs_of_getCtx h hp
+        simp only [refs, Option.toList_some, List.mem_append, List.mem_cons, List.not_mem_nil, or_false] at hi
+        rcases hi with rfl | hi
+        · simp [hm]
+        · exact hpc i (by simp [refs, hi])
+  case newout c p m =>
+    cases hp : getCtx st p with
+    | none => exact h
+    | some pc =>
+      cases hm : getObj st m with
+      | none => exact h
+      | some md =>
+        apply refsOK_addCtx h
+        intro i hi
+        have hpc := refs_of_getCtx h hp
+        simp only [refs, Option.bind_some, Option.toList_some, List.mem_append, List.mem_cons, List.not_mem_nil, or_false] at hi
+        rcases hi with hi | rfl
+        · exact hpc i (by simp [refs, hi])
+        · simp [hm]
+  case appendout c p kv =>
+    cases hp : getCtx st p with
+    | none => exact h
+    | some pc =>
+      apply refsOK_addCtx h
+      intro i hi
+      have hpc := refs_of_getCtx h hp
+      apply hpc i
+      cases ho : pc.out with
+      | none => simpa [refs, ho] using hi
+      | some o => simpa [refs, ho] using hi
+  case fromin d c =>
+    cases getCtx st c with
+    | none => exact h
+    | some x =>
+      simp only []
+      cases incOf st x <;> first | exact h | exact refsOK_create h _ _
+  case fromout d c =>
+    cases getCtx st c with
+    | none => exact h
+    | some x =>
+      simp only []
+      cases rawOf st x <;> first | exact h | exact refsOK_create h _ _
+  case valin c k => cases getCtx st c <;> exact h
+  case valout c k => cases getCtx st c <;> exact h
+
+def runOps (ops : List Op) : St := ops.foldl (fun st op => (step st op).1) {}
+
+theorem refsOK_reachable (ops : List Op) : RefsOK (runOps ops) := by
+  unfold runOps
+  have : ∀ (l : List Op) (st : St), RefsOK st → RefsOK (l.foldl (fun st op => (step st op).1) st) := by
+    intro l
+    induction l with
+    | nil => exact fun st h => h
+    | cons op t ih => exact fun st h => ih _ (refsOK_step h op)
+  exact this ops {} (by intro c x hx; simp at hx)
+
+
+
 end GrpcProofs.Lemmas.MD
